@@ -68,11 +68,11 @@ PROPS["C06"] = dict(
     level="proof",
     runner="C06",
     model_files=["Base.v", "Assets.v", "Select.v", "Tir.v", "Reduce.v", "Walk.v"],
-    proof_files=["Assets_proofs.v", "Tir_proofs.v", "Reduce_proofs.v"],
+    proof_files=["Assets_proofs.v", "Tir_proofs.v", "Reduce_proofs.v", "Reduce_inputs.v", "Reduce_closed.v"],
     check_files=["C06_check.v"],
-    theorems=["C06_constant_closed", "C06_params_complete", "C06_params_sound", "C06_apply_args_closes",
-              "C06_apply_fees_closes", "C06_missing_arg_refused", "C06_all_args_accepted"],
-    partial=["closure after apply_inputs and preservation of closedness by reduce are checked per case (clause 103), not yet theorems",
+    theorems=["C06_constant_closed", "C06_params_complete", "C06_params_sound", "C06_apply_args_closes", "C06_apply_inputs_closes",
+              "C06_apply_fees_closes", "C06_missing_arg_refused", "C06_all_args_accepted", "C06_reduce_keeps_closed", "C06_tx_reduce_keeps_closed"],
+    partial=["preservation of closedness by reduce is a theorem for expressions and whole transactions (C06_reduce_keeps_closed, C06_tx_reduce_keeps_closed) under the hypothesis that the datums of resolved UTxOs are plain data; it is also evaluated per case on the implementation's output (clause 103)",
              "queries_complete (top-level queries reported) is checked per case (clause 102)"],
     trusted_base=TIR_TB,
     assumptions=["Param::Set payloads are closed (sets_closed): true of lowered templates and of what apply_* inserts"],
@@ -82,7 +82,8 @@ PROPS["C06"] = dict(
                  103: "after all stages and reduce the walk finds nothing",
                  104: "resolve_tx without a reported argument answers MissingTxArg naming the first missing key",
                  201: "all full schedules that end Ok give the same canonical TIR",
-                 202: "reduce(reduce x) = reduce x on every intermediate"},
+                 202: "reduce(reduce x) = reduce x on every intermediate",
+                 203: "full schedules whose compiler stage comes when every operand is available all end in a transaction, or none does (templates whose queries evaluate without error)"},
 )
 
 PROPS["C07"] = dict(
@@ -98,7 +99,8 @@ PROPS["C07"] = dict(
     assumptions=["schedules in which a compiler op's operand is not yet available end in a coercion error in model and implementation alike and are not compared"],
     keep_ids=lambda ids: [x for x in ids if x < 100 or 200 <= x < 300],
     check_names={201: "all full schedules that end Ok give the same canonical TIR",
-                 202: "reduce(reduce x) = reduce x on every intermediate"},
+                 202: "reduce(reduce x) = reduce x on every intermediate",
+                 203: "full schedules whose compiler stage comes when every operand is available all end in a transaction, or none does (templates whose queries evaluate without error)"},
 )
 
 PROPS["C09"] = dict(
@@ -318,7 +320,7 @@ PROPS["C01"] = dict(
 PEG_TB = TB_COMMON + [
     "translator `tx3v extract` (harness/src/c12.rs): reads /repo/crates/tx3-lang/src/tx3.pest with pest_meta 2.7.15 (the parser pest itself uses for grammar files) and prints every rule as a Gallina term into coq/gen/Grammar.v on every run; it fails on any construct outside the subset Peg.v interprets",
     "Peg.v re-implements pest's matching semantics (ordered choice, implicit WHITESPACE/COMMENT skipping outside atomic rules, predicates, built-in classes); it is compared with pest's verdict on every generated text (clause 1)",
-    "AST construction (parsing.rs) and the analyzer are not modelled here: they are observed under catch_unwind and a 20 s limit",
+    "AST construction (parsing.rs) and the analyzer are not modelled here: they are observed under catch_unwind and a 10 s limit",
 ]
 PROPS["C12"] = dict(
     level="proof", runner="C12", uses_gen=True, model_files=["Base.v", "Peg.v", "gen/Grammar.v"], proof_files=["Peg_proofs.v"], check_files=["Peg_check.v"],
@@ -328,7 +330,7 @@ PROPS["C12"] = dict(
     trusted_base=PEG_TB, assumptions=["texts up to 2500 bytes, nesting up to 64"],
     keep_ids=_only(lambda i: i == 1 or 120 <= i < 130),
     check_names={1: "acceptance by the generated grammar under Peg.v differs from pest's verdict (or the interpreter ran out of fuel)",
-                 121: "parse_string panicked", 122: "analyze panicked", 123: "no answer within 20 s"},
+                 121: "parse_string panicked", 122: "analyze panicked", 123: "no answer within 10 s"},
 )
 PROPS["C19"] = dict(
     level="proof", runner="C19", uses_gen=True, model_files=["Base.v", "Peg.v", "gen/Grammar.v"], proof_files=["Peg_proofs.v"], check_files=["Peg_check.v"],
